@@ -392,7 +392,7 @@ fn case_strategy() -> impl Strategy<Value = Case> {
 }
 
 pub fn check(ctx: &Ctx) -> Vec<PartReport> {
-    let n = ctx.cases(8_000, 120_000);
+    let n = ctx.cases(24_000, 200_000);
     vec![run_part(
         ctx,
         PartSpec {
